@@ -1,19 +1,36 @@
 #!/bin/bash
-# Re-runs every kept seeded change against the current checks: applies seeded/<id>/patch.diff to /repo, runs the quick
-# tier of the property the change targets plus the checks that caught it before, reverts. Prints one line per change.
+# Re-runs every kept seeded change against the current checks: applies seeded/<id>/patch.diff to /repo (3-way, the
+# patches were made against earlier heads), runs the quick tier of the property the change targets plus every check that
+# caught it before (or the ids given as extra arguments), reverts. Records the outcome in seeded/<id>/meta.json
+# ("rerun", and caught_by := checks that exit 1 now) and prints one line per change.
 cd /verif
 if [ -n "$(git -C /repo status --porcelain)" ]; then echo "/repo not clean"; exit 3; fi
+head=$(git -C /repo rev-parse --short HEAD)
+only="${ONLY:-}"
 for d in seeded/*/; do
   name=$(basename $d)
+  [ -f "$d/meta.json" ] || continue
+  [ -n "$only" ] && ! echo "$name" | grep -qE "$only" && continue
   prop=${name%%-*}
   checks=$(python3 -c "
-import json;m=json.load(open('$d/meta.json'));print(' '.join(sorted(set(['$prop']+m.get('caught_by',[])))))")
-  if ! git -C /repo apply --3way "$PWD/$d/patch.diff" >/dev/null 2>&1; then echo "$name PATCH-DOES-NOT-APPLY"; git -C /repo checkout -- . ; git -C /repo reset -q; continue; fi
+import json;m=json.load(open('$d/meta.json'));print(' '.join(sorted(set(['$prop']+m.get('caught_by',[])+list(m.get('checks_run_with_change_applied_to_repo',{}).keys())))))")
+  if ! git -C /repo apply --3way "$PWD/$d/patch.diff" >/dev/null 2>&1; then echo "$name PATCH-DOES-NOT-APPLY"; git -C /repo reset -q --hard HEAD; continue; fi
   res=""
-  for c in $checks; do
+  for c in $checks "$@"; do
     ./check $c quick >/tmp/seedrerun.out 2>&1; rc=$?
     res="$res $c=$rc"
   done
-  git -C /repo reset -q; git -C /repo checkout -- .
+  git -C /repo reset -q --hard HEAD
+  python3 - "$d/meta.json" "$head" "$prop" $res <<'PY'
+import sys,json
+p,head,prop=sys.argv[1:4]
+res=dict(x.split('=') for x in sys.argv[4:])
+m=json.load(open(p))
+m['rerun']={'repo_head':head,'exit_codes':{k:int(v) for k,v in res.items()}}
+caught=[k for k,v in res.items() if v=='1']
+caught.sort(key=lambda k:(k!=prop,k))
+m['caught_by']=caught
+json.dump(m,open(p,'w'),indent=1)
+PY
   echo "$name$res"
 done
